@@ -198,7 +198,7 @@ META = {
                         'c12.byte-counter', 'c12.monitor-count', 'c12.monitor-bytes'],
     'required_covers': ['nontrivial', 'classmap', 'monitor-sample-with-service', 'two-instances', 'no-downstream'],
     'bounds': {'quick': 'six schedulers; n=3 packets (one 4-packet burst workload each), 2 flows, 3 flow patterns; rate 8; '
-                        'tables {1,2}; class map {5->7, 6->7}; monitor: 2 packets, 2 samples',
+                        'tables {1,2}; class map {5->7, 6->7}; monitor: 2 packets, 2 samples; zero-length bursts; two instances side by side; no downstream device; flow ids beyond the small-int cache; late wake-ups (arrival after a departure of the same instant); two-burst workloads of 6-8 packets',
                'thorough': 'n=4, all flow patterns over 2 flows; class-map workloads of 4; monitor 3 packets'},
     'assumptions': ['arrivals come from one source, hence in non-decreasing time order',
                     'Monitor "in service" is what Scheduler.packet_in_service shows at the sampling step'],
